@@ -1,3 +1,21 @@
-From Coq Require Import List.
-Theorem placeholder_C10 : True. Proof. exact I. Qed.
-Print Assumptions placeholder_C10.
+(* C10 - Canonicalisation never changes what an expression means. *)
+From Coq Require Import List Bool.
+From Y0 Require Import Base.ListSet Dsl.Syntax Dsl.Build Dsl.Canon Proofs.DslP.
+Import ListNotations.
+
+(* The semantic statement needs the denotation of expressions (planned in Dsl/Sem.v; see DESIGN.md). Proved so far:
+   the decision made by canonical_expr_equal is exactly identity of the canonical forms, and the pre-repair
+   Sum.simplify is shown to drop ranges. The meaning clause is checked on every run by the exact-arithmetic oracle. *)
+Theorem C10_canonical_equality_is_identity_of_canonical_forms a b :
+  canonical_expr_equal a b = true <->
+  let o := sorted_variables (dedup (iter_variables a ++ iter_variables b)) in
+  canonicalize false o a = canonicalize false o b.
+Proof. exact (canonical_expr_equal_spec a b). Qed.
+
+Theorem C10_old_sum_simplify_dropped_ranges_refuted :
+  sum_simplify_gen true (EProb None [V 0; V 1] []) [V 0; V 1; V 2] = EOne /\
+  sum_simplify_gen false (EProb None [V 0; V 1] []) [V 0; V 1; V 2] = ESum EOne [V 2].
+Proof. exact sum_simplify_old_drops_ranges. Qed.
+
+Print Assumptions C10_canonical_equality_is_identity_of_canonical_forms.
+Print Assumptions C10_old_sum_simplify_dropped_ranges_refuted.
